@@ -590,6 +590,11 @@ pub fn run(tier: Tier) -> i32 {
             }
         }
     }
+    // ---- the same invocation spelt otherwise: every option of `--help` in its short form, long form, with `=`, with
+    //      each documented alias, and placed behind the sub-command; an accepted spelling behaves like the long form, a
+    //      documented alias is accepted
+    let spelling_runs = spelling_equivalence(&mut rep, &mixed_stream);
+    rep.cov("spelling_runs", json!(spelling_runs));
     rep.cov("filter_cap_combinations", json!(combos));
     rep.cov("evaluations", json!(cases.len() as u64 + pairs + combos));
     rep.cov("cli_cases", json!(cases.len()));
@@ -600,6 +605,176 @@ pub fn run(tier: Tier) -> i32 {
     rep.sample(json!({"case": cases[cases.len() / 2].label, "args": cases[cases.len() / 2].args}));
     rep.assume("with an error cap the run stops early: only 'at most N shown' and the exit status are judged, not the totals");
     rep.finish()
+}
+
+/// Options as the help text documents them: (short, long, takes a value, aliases).
+fn documented_options() -> Vec<(Option<String>, String, bool, Vec<String>)> {
+    let r = Run::new(&["--help"]).run();
+    let help = strip_ansi(&r.stdout_str());
+    let mut out: Vec<(Option<String>, String, bool, Vec<String>)> = Vec::new();
+    for line in help.lines() {
+        let t = line.trim_start();
+        if t.starts_with('-') && line.starts_with("  ") && !line.starts_with("    ") || line.starts_with("      --") {
+            let mut short = None;
+            let mut long = None;
+            let mut value = false;
+            for tok in t.split([' ', ',']).filter(|x| !x.is_empty()) {
+                if let Some(l) = tok.strip_prefix("--") {
+                    long = Some(l.to_string());
+                } else if tok.starts_with('-') && tok.len() == 2 {
+                    short = Some(tok.to_string());
+                } else if tok.starts_with('<') {
+                    value = true;
+                }
+            }
+            if let Some(l) = long {
+                out.push((short, l, value, vec![]));
+            }
+        } else if let Some(i) = t.find("[aliases: ") {
+            let list = &t[i + 10..t.rfind(']').unwrap_or(t.len())];
+            if let Some(last) = out.last_mut() {
+                last.3 = list.split(',').map(|x| x.trim().to_string()).filter(|x| !x.is_empty()).collect();
+            }
+        }
+    }
+    out
+}
+
+fn spelling_equivalence(rep: &mut Reporter, mixed: &[u8]) -> u64 {
+    let opts = documented_options();
+    if opts.len() < 10 {
+        rep.machinery_error(format!("only {} options found in the help text", opts.len()));
+        return 0;
+    }
+    let (walked, _) = stream::walk(mixed);
+    let link = walked[0].rdh.link_id;
+    let fee = walked[0].rdh.fee_id;
+    // per option: (value, base arguments before, sub-command, extra options the option needs)
+    let table = |long: &str| -> Option<(Option<String>, Vec<String>, Vec<String>)> {
+        let chk = s(&["check", "all", "its"]);
+        Some(match long {
+            "verbosity" => (Some("0".into()), chk, vec![]),
+            "max-tolerate-errors" => (Some("2".into()), chk, vec![]),
+            "any-errors-exit-code" => (Some("7".into()), chk, vec![]),
+            "filter-link" => (Some(link.to_string()), chk, vec![]),
+            "filter-fee" => (Some(fee.to_string()), chk, vec![]),
+            "filter-its-stave" => (Some(format!("L{}_{}", (fee >> 12) & 7, fee & 0x3F)), chk, vec![]),
+            "output" => (Some("out.raw".into()), vec![], s(&["--filter-link", &link.to_string()])),
+            "mute-errors" => (None, chk, vec![]),
+            "checks-toml" => (Some("checks.toml".into()), chk, vec![]),
+            "output-stats" => (Some("st.json".into()), chk, s(&["--stats-format", "json"])),
+            "stats-format" => (Some("toml".into()), chk, s(&["--output-stats", "st.toml"])),
+            "input-stats-file" => (Some("ref.json".into()), chk, s(&["--any-errors-exit-code", "7"])),
+            "show-only-errors-with-codes" => (Some("10".into()), chk, vec![]),
+            "disable-styled-views" => (None, s(&["view", "rdh"]), vec![]),
+            _ => return None, // help, version, generators, the trigger period (needs a stave filter)
+        })
+    };
+    struct Obs {
+        status: Option<i32>,
+        out: String,
+        errs: Vec<String>,
+        files: Vec<(String, Option<Vec<u8>>)>,
+        parser_rejected: bool,
+    }
+    let observe = |args: &[String]| -> Obs {
+        let scratch = Scratch::new("c16sp");
+        let _ = scratch.file("checks.toml", b"cdps = 1\n");
+        // a reference statistics file for -i (of the same check, so that it matches)
+        let refrun = Run::new(&[scratch.file("in.raw", mixed).display().to_string(), "check".into(), "all".into(), "its".into(), "--output-stats".into(), "ref.json".into(), "--stats-format".into(), "json".into()]).cwd(&scratch.path).run();
+        let _ = refrun;
+        let mut a = vec!["in.raw".to_string()];
+        a.extend(args.iter().cloned());
+        let r = Run::new(&a).cwd(&scratch.path).run();
+        let out = strip_ansi(&r.stdout_str()).lines().filter(|l| !l.contains("Processed in")).collect::<Vec<_>>().join("\n");
+        let errs = first_lines(&split_cli_errors(&r.stderr_str()));
+        let files = ["out.raw", "st.json", "st.toml"].iter().map(|f| (f.to_string(), std::fs::read(scratch.join(f)).ok())).collect();
+        Obs { status: r.status, parser_rejected: r.status == Some(2) && r.stdout.is_empty(), out, errs, files }
+    };
+    let mut jobs: Vec<(String, String, Vec<String>, Vec<String>, bool)> = Vec::new(); // (option, spelling label, reference args, variant args, must be accepted)
+    for (short, long, takes, aliases) in &opts {
+        let Some((value, sub, extra)) = table(long) else { continue };
+        if value.is_some() != *takes {
+            rep.machinery_error(format!("option --{long}: the help text and the spelling table disagree on whether it takes a value"));
+            continue;
+        }
+        let with = |name: &str, eq: bool, after: bool| -> Vec<String> {
+            let mut o: Vec<String> = Vec::new();
+            match (&value, eq) {
+                (Some(v), true) => o.push(format!("{name}={v}")),
+                (Some(v), false) => o.extend([name.to_string(), v.clone()]),
+                (None, _) => o.push(name.to_string()),
+            }
+            let mut a = extra.clone();
+            if after {
+                a.extend(sub.iter().cloned());
+                a.extend(o);
+            } else {
+                a.extend(o);
+                a.extend(sub.iter().cloned());
+            }
+            a
+        };
+        // an option that takes a list of values swallows the words that follow it: it goes behind the sub-command
+        let tail = long == "show-only-errors-with-codes";
+        let reference = with(&format!("--{long}"), false, tail);
+        if value.is_some() {
+            jobs.push((long.clone(), format!("--{long}=<value>"), reference.clone(), with(&format!("--{long}"), true, false), true));
+        }
+        if !sub.is_empty() && !tail {
+            jobs.push((long.clone(), format!("--{long} behind the sub-command"), reference.clone(), with(&format!("--{long}"), false, true), false));
+        }
+        if let Some(sh) = short {
+            jobs.push((long.clone(), format!("{sh}"), reference.clone(), with(sh, false, tail), true));
+            if let (Some(v), false) = (&value, tail) {
+                let mut a = extra.clone();
+                a.push(format!("{sh}{v}"));
+                a.extend(sub.iter().cloned());
+                jobs.push((long.clone(), format!("{sh}<value> attached"), reference.clone(), a, false));
+            }
+        }
+        for al in aliases {
+            jobs.push((long.clone(), format!("alias --{al}"), reference.clone(), with(&format!("--{al}"), false, tail), true));
+            if value.is_some() {
+                jobs.push((long.clone(), format!("alias --{al}=<value>"), reference.clone(), with(&format!("--{al}"), true, false), true));
+            }
+        }
+    }
+    let res = par_map(&jobs, |_, (_, _, reference, variant, must)| -> Option<(String, String)> {
+        let r = observe(reference);
+        let v = observe(variant);
+        if r.parser_rejected {
+            return Some(("__machinery".into(), format!("the reference spelling {:?} was rejected", reference)));
+        }
+        if v.parser_rejected {
+            return if *must { Some(("documented-spelling-rejected".into(), format!("{:?} is rejected by the argument parser", variant))) } else { None };
+        }
+        if v.status != r.status {
+            return Some(("exit-status".into(), format!("exit {:?} instead of {:?}", v.status, r.status)));
+        }
+        if v.errs != r.errs {
+            return Some(("messages".into(), format!("{} messages instead of {}", v.errs.len(), r.errs.len())));
+        }
+        if v.out != r.out {
+            return Some(("stdout".into(), "the report / view differs".into()));
+        }
+        for ((n, a), (_, b)) in v.files.iter().zip(r.files.iter()) {
+            if a != b {
+                return Some(("files".into(), format!("{n}: {:?} bytes instead of {:?}", a.as_ref().map(|x| x.len()), b.as_ref().map(|x| x.len()))));
+            }
+        }
+        None
+    });
+    let mut n = 0u64;
+    for ((opt, label, _, variant, _), r) in jobs.iter().zip(res.iter()) {
+        n += 2;
+        match r {
+            Some((sig, d)) if sig == "__machinery" => rep.machinery_error(d.clone()),
+            Some((sig, d)) => rep.violation(Violation { signature: format!("spelling:{sig}:{opt}"), description: format!("{d} [option --{opt} written as {label}: {:?}]", variant), replay: json!({"args": variant}) }),
+            None => {}
+        }
+    }
+    n
 }
 
 fn first_lines(msgs: &[String]) -> Vec<String> {
